@@ -251,6 +251,9 @@ func runInBubble(p *Profile, o RunOpts, res *RunResult) {
 		sr := w.Exec(st)
 		rc.Outs = append(rc.Outs, sr.Out)
 		rc.log.add(fmt.Sprintf("%d %s -> %s", i, st.String(), describe(&sr)))
+		if o.KeepLog {
+			rc.dumpState()
+		}
 		if sr.Out == "hang" {
 			viol = &Violation{Property: p.Property, Oracle: "no_hang", Class: "hang:" + st.Op, Detail: "step did not finish: " + st.String(), Step: i}
 			return
@@ -401,4 +404,33 @@ func (rc *RunCtx) ServerDoc(d int) (string, *database.DocInfo, error) {
 		return "", info, err
 	}
 	return doc.Marshal(), info, nil
+}
+
+// dumpState writes every replica's visible state into the event log
+// (verbose replays and determinism self-tests).
+func (rc *RunCtx) dumpState() {
+	for _, sc := range rc.W.Clients {
+		if sc == nil {
+			continue
+		}
+		for _, d := range sortedDocs(sc) {
+			sd := sc.Docs[d]
+			rc.log.add(fmt.Sprintf("    c%d d%d st=%d cp=%s local=%v vv=%s garbage=%d %s", sc.Idx, d, int(sd.Doc.Status()),
+				sd.Doc.Checkpoint().String(), sd.Doc.HasLocalChanges(), rankVV(rc, sd.Doc.VersionVector().Marshal()), sd.Doc.GarbageLen(), clip(sd.Doc.Marshal())))
+			if rc.Cfg.Trace {
+				rc.log.add("        " + rankVV(rc, structure(sd.Doc.RootObject())))
+			}
+		}
+	}
+}
+
+// rankVV replaces actor ids by the slot of the client that owns them.
+func rankVV(rc *RunCtx, s string) string {
+	for _, sc := range rc.W.Clients {
+		if sc == nil || !sc.Cli.IsActive() {
+			continue
+		}
+		s = strings.ReplaceAll(s, sc.Cli.ID().String(), fmt.Sprintf("c%d", sc.Idx))
+	}
+	return s
 }
